@@ -551,7 +551,7 @@ def impl_run(c):
             if su.probe.mid is not None:      # the check never called the source: the change follows it
                 ev, su.probe.mid = su.probe.mid, None
                 su.world.apply(ev)
-            info = {"raised": raised, "calls": [(n, s, k, (v if n == "etag" else None)) for n, s, k, v in su.probe.calls],
+            info = {"raised": raised, "calls": [(n, s, k, (v if (n == "etag" or k == "exc") else None)) for n, s, k, v in su.probe.calls],
                     "same_obj": su.guard.policy is before["policy_obj"],
                     "policy_is_last_loaded": bool(su.probe.loaded_objs) and su.guard.policy is su.probe.loaded_objs[-1],
                     "new_loads": len(su.probe.loaded_objs) - before["n_loaded"],
@@ -654,7 +654,6 @@ def judge(chk, c, out, m_out):
             viol.append(("a check raised / returned a non-boolean", {"step": ix, "raised": info["raised"], "result": res}))
             continue
         calls = info["calls"]
-        n_et = sum(1 for x in calls if x[0] == "etag")
         n_ld = sum(1 for x in calls if x[0] == "load")
         load_ok = [x for x in calls if x[0] == "load" and x[2] == "ok"]
         exc = [x for x in calls if x[2] == "exc"]
@@ -696,8 +695,8 @@ def judge(chk, c, out, m_out):
             viol.append(("forced check did not call load()", {"step": ix}))
         if unforced_exc:
             su_after = post[7]
-            if not (now + 0.2 - 1e-9 <= su_after <= now + bound + 1e-9):
-                viol.append(("after a failure the suppression window is not within [0.2, max(0.2, backoff_max*(1+jitter_ratio))]",
+            if not (su_after <= now + bound + 1e-9):
+                viol.append(("after a failure the suppression window exceeds max(0.2, backoff_max*(1+jitter_ratio))",
                              {"step": ix, "now": now, "suppressed_until": su_after, "bound": bound}))
             if not post[6]:
                 viol.append(("failure not recorded in last_error", {"step": ix}))
@@ -766,13 +765,19 @@ def tail_verdict(c, out, last_apply):
     if (not c["initial_load"]) and after3[2] == 0 and stored is not None and stored == out.get("primed") \
             and et3 and et3[0][3] == stored:
         return "proviso-not-met", None
-    # F9: HTTP source behind a server that sends ETags, stored tag = the tag the source object remembers
-    if c["kind"] == ["http", True] and stored is not None and stored == out.get("src_etag_attr"):
+    # both open findings have the same symptom: the tail checks that lie entirely in the stable world (the first one
+    # may straddle its beginning) found "tag unchanged" - etag() returned the stored tag, no load(), False - while
+    # the engine holds another document than the source
+    stuck = all(snaps[t + 1][0] is False and [x[0] for x in infos[t]["calls"]] == ["etag"]
+                and infos[t]["calls"][0][2] == "ok" and infos[t]["calls"][0][3] == stored for t in (t2, t3)) \
+        and not any(x[0] == "load" and x[2] == "ok" for x in infos[t1]["calls"])
+    # F9: HTTP source behind a server that sends ETags; stored tag = the tag the source object remembers
+    if stuck and c["kind"] == ["http", True] and stored is not None and stored == out.get("src_etag_attr"):
         return "F9", failed
     # F20: content tag stored by a check whose etag() and load() saw different contents, and the source is back
     # at the content that etag() saw
-    if (content_kind_tag(c, stored) and last_apply is not None and last_apply[0] != last_apply[1]
-            and last_apply[0] is not None and last_apply[0] == cur_content and et3 and et3[0][3] == stored):
+    if (stuck and content_kind_tag(c, stored) and c["kind"][0] != "http" and last_apply is not None
+            and last_apply[0] != last_apply[1] and last_apply[0] is not None and last_apply[0] == cur_content):
         return "F20", failed
     return "failed", failed
 
@@ -873,7 +878,7 @@ class Builder:
             self.versioning = not self.versioning
             return [["versioning", self.versioning]]
         if sym == "al~":
-            nxt = {(): [0, 3], (0, 3): [2], (2,): [4, 1], (4, 1): []}.get(tuple(self.algos), [])
+            nxt = {(): [0, 3], (0,): [1, 0, 2], (0, 3): [2], (2,): [4, 1], (4, 1): [1, 0, 2], (1, 0, 2): [3, 1]}.get(tuple(self.algos), [])
             self.algos = nxt
             return [["algos", nxt]]
         raise ValueError(sym)
@@ -979,12 +984,15 @@ def gen_cases(chk):
     rng = chk.rng
     cases = []
     thorough = chk.tier == "thorough"
-    # 1. every history of length <= L over the kind's alphabet (quick: L = 2 complete, L = 3..4 sampled)
+    # 1. every history of length <= L over the kind's alphabet: L = 2 for all 13 source configurations and L = 3 for
+    #    four core ones (thorough: 3 for all, 4 for the core ones); longer ones sampled
+    core = [["gen", 0], ["file", False], ["http", True], ["s3", 1, None]]
     full_len = 3 if thorough else 2
-    budget_sampled = 16000 if thorough else 2600
+    budget_sampled = 40000 if thorough else 5200
     for kind in KINDS:
         alpha = ALPHA[kind[0]]
-        for L in range(0, full_len + 1):
+        top = full_len + 1 if kind in core else full_len
+        for L in range(0, top + 1):
             for syms in itertools.product(alpha, repeat=L):
                 cases.append(make_case(kind, syms, rng, "enum%d" % L))
     per_kind = budget_sampled // len(KINDS)
@@ -995,7 +1003,7 @@ def gen_cases(chk):
             syms = [rng.choice(alpha) for _ in range(L)]
             cases.append(make_case(kind, syms, rng, "sample%d" % L))
     # 2. random long histories
-    n_long = 1500 if thorough else 260
+    n_long = 4000 if thorough else 600
     for _ in range(n_long):
         kind = rng.choice(KINDS)
         alpha = ALPHA[kind[0]] + [e for e in EXTRA if not (kind[0] != "gen" and "fe+" in e)
@@ -1035,7 +1043,7 @@ class Turns:
             self.turn = None
             self.cv.notify_all()
 
-    def grant(self, who, timeout=5.0):
+    def grant(self, who, timeout=60.0):
         """let `who` run until it parks again (or finishes)."""
         with self.cv:
             self.parked[who] = False
@@ -1081,7 +1089,6 @@ def impl_run_conc(c):
     def uni(a, b):
         return umap.get(names.get(threading.get_ident()), 0.0)
     su.fr.uniform = uni  # type: ignore[method-assign]
-    phase = {}       # thread -> number of model steps performed
 
     def body(i, force):
         names[threading.get_ident()] = i
@@ -1094,7 +1101,8 @@ def impl_run_conc(c):
 
     def snap():
         res = [out["results"].get(i) if i in turns.done else None for i in range(len(threads))]
-        return su.snap(None) + [res]
+        known = (su.guard.policy is su.p0) or any(su.guard.policy is o for o in su.probe.loaded_objs)
+        return su.snap(None) + [res, known]
 
     try:
         out["snaps"].append(snap())
@@ -1106,10 +1114,9 @@ def impl_run_conc(c):
                 t = threading.Thread(target=body, args=(i, bool(cmd[1])), daemon=True)
                 threads.append(t)
                 forces[i] = bool(cmd[1])
-                phase[i] = 0
                 t.start()
                 with turns.cv:
-                    turns.cv.wait_for(lambda: turns.parked.get(i), 5.0)
+                    turns.cv.wait_for(lambda: turns.parked.get(i), 60.0)
             elif cmd[0] == "step":
                 _, i, now, u = cmd
                 if i < len(threads) and i not in turns.done:
@@ -1120,7 +1127,6 @@ def impl_run_conc(c):
                     if not turns.grant(i):
                         out["error"] = "scheduler time-out (dead-lock?) at %r" % (cmd,)
                         break
-                    phase[i] += 1
             else:
                 raise ValueError(cmd)
             out["snaps"].append(snap())
@@ -1144,24 +1150,28 @@ def gen_conc_cases(chk):
     once at any point: every interleaving of their (at most 4 + 4) steps."""
     rng = chk.rng
     cases = []
-    orders = set(itertools.permutations([0] * 4 + [1] * 4))
-    orders = sorted(orders)
-    if chk.tier != "thorough":
-        orders = [o for k, o in enumerate(orders) if k % 3 == 0]
-    kinds = [["gen", 0], ["gen", 1], ["file", False], ["http", True], ["s3", 1, None]]
+    orders = sorted(set(itertools.permutations([0] * 4 + [1] * 4)))     # all 70 interleavings of 4 + 4 steps
+    kinds = [["gen", 0], ["gen", 1], ["file", False], ["http", True], ["s3", 1, None], ["file", True], ["gen", 2],
+             ["http", False], ["s3", 0, None]]
+    n_var = 12 if chk.tier == "thorough" else 3
     for oi, order in enumerate(orders):
-        for variant in range(3 if chk.tier == "thorough" else 1):
+        for variant in range(n_var):
             kind = kinds[(oi + variant) % len(kinds)]
             world = init_world(kind, 0)
-            evpos = rng.randrange(0, 9)
-            ev = rng.choice([["write", ["d", 21]], ["write", ["b", 2]], ["delete"], ["write", ["d", 1]]])
+            evs = {}
+            for _ in range(rng.choice([1, 1, 2])):
+                ev = rng.choice([["write", ["d", 21]], ["write", ["d", 22]], ["write", ["b", 2]], ["delete"],
+                                 ["write", ["d", 1]], ["touch"]] + ([["fail_load", True], ["fail_etag", True]]
+                                                                    if kind[0] == "gen" else []))
+                evs.setdefault(rng.randrange(0, 9), []).append(ev)
             f0, f1 = rng.random() < 0.25, rng.random() < 0.25
             script = [["spawn", f0], ["spawn", f1]]
+            t0, t1 = 1.0, rng.choice([1.0, 1.5, 40.0])
             for k, who in enumerate(order):
-                if k == evpos:
+                for ev in evs.get(k, []):
                     script.append(["ev", ev])
-                script.append(["step", who, 1.0 + who, rng.choice(US)])
-            if evpos == 8:
+                script.append(["step", who, t1 if who else t0, rng.choice(US)])
+            for ev in evs.get(8, []):
                 script.append(["ev", ev])
             cases.append({"kind": kind, "cfg": rng.choice(CFGS[:5]), "initial_load": rng.random() < 0.5,
                           "async": False, "p0": 1, "world": world, "script": script, "conc": True,
@@ -1169,8 +1179,79 @@ def gen_conc_cases(chk):
     return cases
 
 
+def impl_run_stress(c):
+    """ungated threads: n threads call check_and_reload concurrently while the main thread rewrites the
+    document; judged on the safety clauses only (no model: the schedule is the operating system's)."""
+    out = {"error": None, "stress": True}
+    try:
+        su = Setup(c)
+    except Exception as e:  # noqa: BLE001
+        out["error"] = "setup raised %s: %s" % (type(e).__name__, e)
+        return out
+    results, errors = [], []
+    su.ft.now = 1.0
+
+    def body(k):
+        for j in range(c["rounds"]):
+            try:
+                results.append(su.r.check_and_reload(force=(k + j) % 5 == 0))
+            except Exception as e:  # noqa: BLE001
+                errors.append("%s: %s" % (type(e).__name__, e))
+
+    try:
+        ths = [threading.Thread(target=body, args=(k,), daemon=True) for k in range(c["threads"])]
+        for t in ths:
+            t.start()
+        for j in range(c["writes"]):
+            su.world.apply(["write", ["d", 30 + j]] if j % 4 != 3 else ["write", ["b", j]])
+        su.world.apply(["write", ["d", 99]])
+        for t in ths:
+            t.join(60.0)
+        alive = any(t.is_alive() for t in ths)
+        out.update(alive=alive, errors=errors[:3], n_true=sum(1 for r in results if r is True),
+                   nonbool=[r for r in results if r not in (True, False)][:3], clears=su.cache.clears,
+                   policy_known=(su.guard.policy is su.p0) or any(su.guard.policy is o for o in su.probe.loaded_objs))
+        # quiescent and stable: two sequential checks beyond any window
+        su.ft.now = 1.0 + 2 * BIG
+        su.r.check_and_reload()
+        su.ft.now = 1.0 + 4 * BIG
+        su.r.check_and_reload()
+        out["final_policy"] = pol_id(su.guard.policy)
+    except Exception as e:  # noqa: BLE001
+        out["error"] = "harness error %s: %s" % (type(e).__name__, e)
+    finally:
+        su.close()
+    return out
+
+
+def gen_stress_cases(chk):
+    n = 40 if chk.tier == "thorough" else 10
+    kinds = [["gen", 1], ["file", True], ["s3", 1, None], ["http", False]]
+    return [{"kind": kinds[k % len(kinds)], "cfg": [0.0, 0.125, 0.5], "initial_load": k % 2 == 0, "async": False, "p0": 1,
+             "world": init_world(kinds[k % len(kinds)], 0), "script": [], "stress": True, "threads": 4, "rounds": 12,
+             "writes": 25, "fam": "stress", "flavour": {}} for k in range(n)]
+
+
+def _check_stress(chk, c, out):
+    chk.count("stress:true=%s" % min(out.get("n_true", 0), 20))
+    if out.get("alive"):
+        chk.violation("concurrent checks did not finish (dead-lock)", c, impl=out)
+    elif out.get("errors") or out.get("nonbool"):
+        chk.violation("a concurrent check raised / returned a non-boolean", c, impl=out)
+    elif not out.get("policy_known"):
+        chk.violation("concurrent checks: active policy is neither the initial one nor a loaded document", c, impl=out)
+    elif out["clears"] != out["n_true"]:
+        chk.violation("concurrent checks: number of cache clears differs from the number of checks that returned True",
+                      c, impl=out)
+    elif out.get("final_policy") != 99:
+        chk.violation("after concurrent checks and two sequential ones the engine does not enforce the source's "
+                      "document (version-tagged / untagged source)", c, impl=out)
+
+
 # --------------------------------------------------------------------------
 def _run_impl_one(c):
+    if c.get("stress"):
+        return impl_run_stress(c)
     return impl_run_conc(c) if c.get("conc") else impl_run(c)
 
 
@@ -1185,7 +1266,9 @@ def run_impl_many(cases, procs=None):
 
 
 def check_cases(chk, cases, replay=False):
-    m_outs = model_run(cases)
+    m_outs = model_run([c for c in cases if not c.get("stress")])
+    it = iter(m_outs)
+    m_outs = [None if c.get("stress") else next(it) for c in cases]
     i_outs = run_impl_many(cases)
     for c, out, m_out in zip(cases, i_outs, m_outs):
         key = (json.dumps(c["kind"]), json.dumps(c["cfg"]), c["initial_load"], c["async"], c["p0"],
@@ -1197,9 +1280,12 @@ def check_cases(chk, cases, replay=False):
         chk.count("kind:" + "/".join(str(x) for x in c["kind"]))
         chk.count("len:%s" % (len(c["script"]) if len(c["script"]) < 12 else "12+"))
         chk.sample({"case": {k: v for k, v in c.items() if k != "flavour"}, "impl": out.get("snaps", [])[-1:],
-                    "model": m_out[-1:]}, every=997)
+                    "model": (m_out or [])[-1:]}, every=997)
         if out.get("error"):
             chk.violation("the reloader could not be driven through the history: " + out["error"], c, impl=out["error"])
+            continue
+        if c.get("stress"):
+            _check_stress(chk, c, out)
             continue
         if c.get("conc"):
             _check_conc(chk, c, out, m_out)
@@ -1212,7 +1298,7 @@ def check_cases(chk, cases, replay=False):
             if info:
                 for x in info["calls"]:
                     if x[2] == "exc":
-                        chk.count("exc:%s:%s" % (x[0], x[3] if x[0] == "etag" else "-"))
+                        chk.count("exc:%s:%s" % (x[0], x[3]))
         viol = judge(chk, c, out, m_out)
         for clause, detail in viol[:2]:
             chk.violation(clause, c, impl={"detail": detail, "snaps": out["snaps"]}, model=m_out)
@@ -1244,6 +1330,10 @@ def _check_conc(chk, c, out, m_out):
     chk.count("conc:true=%d" % sum(1 for r in results if r is True))
     if any(r not in (True, False, None) for r in results):
         chk.violation("an overlapping check raised", c, impl=snaps)
+        return
+    if not all(sn[10] for sn in snaps):
+        chk.violation("overlapping checks: active policy is neither the initial one nor a document returned by a "
+                      "successful load", c, impl=snaps, model=m_out)
         return
     if last[2] != sum(1 for r in results if r is True):
         chk.violation("overlapping checks: cache clears != number of checks that returned True", c, impl=snaps, model=m_out)
@@ -1281,7 +1371,8 @@ def run(chk):
                 "three unforced checks on which convergence is judged; initial_load on/off, guard built from the "
                 "source's document or from an unrelated one, six back-off configurations, checks run through "
                 "check_and_reload_async, check_and_reload (no loop / under a running loop) and poll_once; plus every "
-                "interleaving (quick: every third) of the atomic steps of two overlapping checks on real threads. "
+                "interleaving (70) of the atomic steps of two overlapping checks, forced on real threads by gates around the "
+                "source calls, with world events in between, and free-running threads judged on the safety clauses only. "
                 "non-trivial = at least one check and (a world event or a primed tag); distinct = distinct "
                 "(source configuration, reloader configuration, initial world, script)")
     chk.assumptions = [
@@ -1298,8 +1389,15 @@ def run(chk):
     corp = corpus_cases()
     check_cases(chk, corp)
     cases = gen_cases(chk)
-    check_cases(chk, cases)
+    for k in range(0, len(cases), 25000):
+        check_cases(chk, cases[k:k + 25000])
     conc = gen_conc_cases(chk)
     check_cases(chk, conc)
+    stress = gen_stress_cases(chk)
+    check_cases(chk, stress)
     chk.exhaustive = True
-    chk.extra["cases"] = {"corpus": len(corp), "sequential": len(cases), "overlapping": len(conc)}
+    chk.extra["cases"] = {"corpus": len(corp), "sequential": len(cases), "overlapping_gated": len(conc),
+                          "overlapping_free_running": len(stress)}
+    chk.extra["open_finding_witness_still_fails"] = {f: witness_fails(f) for f in ("F9", "F20")}
+    chk.extra["partial"] = ("the polling thread's timing loop is modelled only as 'calls check repeatedly'; network and "
+                            "S3 are fakes; each etag()/load() call is atomic with respect to the world")
